@@ -22,7 +22,8 @@ func RouteUDP(bindFunc func() (*net.UDPConn, error), streamTimeout time.Duration
 	streams := make(map[string]*mux.Stream)
 	var streamsMutex sync.Mutex
 
-	data := make([]byte, 8192)
+	// large enough for any UDP datagram: Stream.Write itself refuses what does not fit one frame
+	data := make([]byte, 65535)
 	for {
 		i, addr, err := localConn.ReadFrom(data)
 		if err != nil {
@@ -57,7 +58,7 @@ func RouteUDP(bindFunc func() (*net.UDPConn, error), streamTimeout time.Duration
 
 			proxyAddr := addr
 			go func(stream *mux.Stream, localConn *net.UDPConn) {
-				buf := make([]byte, 8192)
+				buf := make([]byte, 65535)
 				for {
 					n, err := stream.Read(buf)
 					if err != nil {
